@@ -14,7 +14,7 @@ import itertools
 NOPS = {"u": (5, 7, 3), "s": (4, 4, 3)}      # number of unary / binary / ternary op codes per domain
 NVAL = {"u": 4, "s": 8}
 ARITY = {  # C17 token counts after the op letter (R handled separately)
-    "K": 1, "C": 3, "Y": 1, "U": 2, "B": 3, "T": 4, "P": 3, "E": 3, "X": 3}
+    "K": 1, "C": 3, "Y": 1, "A": 2, "U": 2, "B": 3, "T": 4, "P": 3, "E": 3, "X": 3}
 
 def asgn_word(a): return a if a else "-"
 def rand_asgn(rng, n, pdc=0.34):
@@ -36,6 +36,7 @@ class Tree:
         assert len(asgn) <= self.nv
         return self._add(["C", asgn_word(asgn), v, d], len(asgn))
     def Y(self, a): return self._add(["Y", a], self.ub[a])
+    def A(self, a, b): return self._add(["A", a, b], self.ub[b])          # a copy of a, then copy-assigned from b
     def U(self, f, a): return self._add(["U", f, a], self.ub[a])
     def B(self, f, a, b): return self._add(["B", f, a, b], max(self.ub[a], self.ub[b]))
     def T(self, f, a, b, c): return self._add(["T", f, a, b, c], max(self.ub[a], self.ub[b], self.ub[c]))
@@ -63,7 +64,7 @@ def rand_renaming(rng, nv, u):
     while len(r) < nv: r.append(r[-1] + 1)
     return r
 
-def rand_tree(rng, dom, nv, nops, vals=None, pdc=0.34, kinds="KCCCYUBBBTPREX"):
+def rand_tree(rng, dom, nv, nops, vals=None, pdc=0.34, kinds="KCCCYAUBBBTPREX"):
     t = Tree(dom, nv)
     vals = vals if vals is not None else list(range(NVAL[dom]))
     n1, n2, n3 = NOPS[dom]
@@ -73,6 +74,7 @@ def rand_tree(rng, dom, nv, nops, vals=None, pdc=0.34, kinds="KCCCYUBBBTPREX"):
         if k == "K": t.K(rng.choice(vals))
         elif k == "C": t.C(rand_asgn(rng, rng.randint(0, nv), pdc), rng.choice(vals), rng.choice(vals))
         elif k == "Y": t.Y(h())
+        elif k == "A": t.A(h(), h())
         elif k == "U": t.U(rng.randrange(n1), h())
         elif k == "B": t.B(rng.randrange(n2), h(), h())
         elif k == "T": t.T(rng.randrange(n3), h(), h(), h())
@@ -90,6 +92,38 @@ def rand_tree(rng, dom, nv, nops, vals=None, pdc=0.34, kinds="KCCCYUBBBTPREX"):
             t.X(rand_asgn(rng, rng.randint(need, max(need, nv)), pdc), off, a)
     return t
 
+def assign_default_tree(rng, dom, nv):
+    """two objects denoting the SAME function with DIFFERENT default values (a construction and its mirror image, or a constant built two ways),
+    copy-assignment between them in both directions, then operations that read the default value (ExtendWith) and further random operations"""
+    t = Tree(dom, nv)
+    vals = list(range(NVAL[dom]))
+    v, d = rng.sample(vals, 2)
+    r = rng.random()
+    if r < 0.5 and nv >= 1:
+        k = rng.randint(1, max(1, nv - 1))
+        pos = rng.randrange(k)
+        bit = rng.choice("01")
+        a1 = "".join(bit if i == pos else "X" for i in range(k)); a2 = "".join(("1" if bit == "0" else "0") if i == pos else "X" for i in range(k))
+        h0 = t.C(a1, v, d); h1 = t.C(a2, d, v)                      # x_pos = bit ? v : d   both ways
+    elif r < 0.75:
+        h0 = t.C("", v, d); h1 = t.K(v)                              # the constant v with default d / default v
+    else:
+        h0 = t.C(rand_asgn(rng, rng.randint(0, max(0, nv - 1)), 1.0), v, d); h1 = t.C("", v, rng.choice(vals))
+    h2 = t.A(h0, h1); h3 = t.A(h1, h0)
+    for h in (h2, h3, h0, h1):
+        if t.ub[h] <= nv:
+            off = rng.randint(t.ub[h], nv)
+            t.E(rand_asgn(rng, rng.randint(0, nv - off), 0.2), off, h)
+    n1, n2, n3 = NOPS[dom]
+    for _ in range(rng.randint(0, 3)):
+        k = rng.choice("BUAY")
+        hh = lambda: rng.randrange(t.n())
+        if k == "B": t.B(rng.randrange(n2), hh(), hh())
+        elif k == "U": t.U(rng.randrange(n1), hh())
+        elif k == "A": t.A(hh(), hh())
+        else: t.Y(hh())
+    return t
+
 def parse17(line):
     w = line.split()
     assert w[0] == "c17"
@@ -104,7 +138,7 @@ def parse17(line):
 def refs17(op):
     """positions (inside the op's token list) holding handle references"""
     k = op[0]
-    return {"K": [], "C": [], "Y": [1], "U": [2], "B": [2, 3], "T": [2, 3, 4], "P": [3], "E": [3], "X": [3]}.get(k, [len(op) - 1])
+    return {"K": [], "C": [], "Y": [1], "A": [1, 2], "U": [2], "B": [2, 3], "T": [2, 3, 4], "P": [3], "E": [3], "X": [3]}.get(k, [len(op) - 1])
 
 def shrink17(line):
     """candidates: drop the last op; drop an unreferenced op (renumbering); replace an op by a constant"""
